@@ -538,6 +538,12 @@ def _expr_run(res: CheckResult, layouts: bool) -> None:
 @check("C06")
 def c06(res: CheckResult) -> None:
     _expr_run(res, layouts=False)
+    if not res.violations:
+        # "the configured repr of exactly the value": value lines and the quantifier's example rendered through the
+        # contract's own a_repr (sizes around its limits); only this clause of the message cases is C06's
+        from icv import msgcheck as M
+        M.check_messages(res, res.tier, random.Random(res.seed), only_clauses={"msg.repr_not_contracts"},
+                         flavours={"quant", "lambda"})
 
 
 @check("C07")
